@@ -72,7 +72,23 @@ def _presence_established(ctx, f, call, pm):
                             and any(isinstance(y, ast.Compare) for y in walk_own(r[1].node)):
                         return "predicate %s() implies the needle occurs" % c.func.id
         cur = par
-    # an earlier sibling `elif/if needle not in recv: return` in the same chain is handled above through the orelse nesting
+    # an earlier statement of an enclosing block leaves the function when the needle is absent:
+    # `if <...> or needle not in recv: return ...` (the disjunction being false makes every disjunct false)
+    cur = call
+    while cur in pm:
+        par = pm[cur]
+        for field in ("body", "orelse"):
+            blk = getattr(par, field, None)
+            if isinstance(blk, list) and any(cur is s_ for s_ in blk):
+                i = [k for k, s_ in enumerate(blk) if s_ is cur][0]
+                for prev in blk[:i]:
+                    if isinstance(prev, ast.If) and not prev.orelse and prev.body and isinstance(prev.body[-1], (ast.Return, ast.Raise, ast.Continue, ast.Break)):
+                        disj = prev.test.values if isinstance(prev.test, ast.BoolOp) and isinstance(prev.test.op, ast.Or) else [prev.test]
+                        for c in disj:
+                            if isinstance(c, ast.Compare) and len(c.ops) == 1 and isinstance(c.ops[0], ast.NotIn) \
+                                    and _fold_txt(ctx, f, c.left) == needle and _same_string(f, norm(c.comparators[0]), recv):
+                                return "an earlier `%s not in %s` leaves the function" % (needle, recv)
+        cur = par
     return None
 
 
